@@ -18,7 +18,7 @@
 //     horizontal sums are equal, different or zero on one axis x content, on one box inside
 //     containers with and without an explicitly specified height (§10.5, §10.7);
 //   - cross term: every low-level vertical case with one horizontal, percentage or box-sizing
-//     deviation on one box.
+//     deviation on one box, or min-height / max-height on a box without child blocks.
 //
 // Clauses: width, x, margin-left, margin-right (not over-constrained), width-equation, text-x;
 // y (top border edge of observable boxes and lines of text), bottom (bottom border edge of
